@@ -27,21 +27,59 @@ def parseOp (ws : List String) : Option SOp :=
   | ["sunsup", _] => some .unsupported
   | _ => none
 
-def step (st : SState) (line : String) : SState × Option String :=
+/-- all orders of a (short) list -/
+def perms {α : Type} : List α → List (List α)
+  | [] => [[]]
+  | x :: xs => (perms xs).flatMap fun p => (List.range (p.length + 1)).map fun i => p.take i ++ [x] ++ p.drop i
+
+/-- model state, and the operations of a concurrent round being collected -/
+structure DSt where
+  st : SState := init
+  round : Option (List (SOp × List String)) := none
+
+def splitLine (ws : List String) : List String × List String :=
+  (ws.takeWhile (· ≠ "=>"), (ws.dropWhile (· ≠ "=>")).drop 1)
+
+/-- run the operations in the given order; every reply must be the model's -/
+def runOrder (st : SState) : List (SOp × List String) → Option SState
+  | [] => some st
+  | (op, rhs) :: rest =>
+    let (st', r) := GoNfsd.Model.Simple.step st op
+    if replyToks r = rhs then runOrder st' rest else none
+
+def step (d : DSt) (line : String) : DSt × Option String :=
   let ws := words line
+  let st := d.st
   match ws with
-  | ["sinit"] => (init, none)
+  | ["sinit"] => ({}, none)
+  | ["sround-begin"] => ({ d with round := some [] }, none)
+  | "sround-end" :: final =>
+    -- the operations of the round ran concurrently: SOME order of them must explain every reply
+    -- and the final read
+    match d.round, parseOp (splitLine final).1 with
+    | some ops, some fop =>
+      let frhs := (splitLine final).2
+      let good := (perms ops).filterMap fun order =>
+        match runOrder st order with
+        | some stF => if replyToks (GoNfsd.Model.Simple.step stF fop).2 = frhs then some stF else none
+        | none => none
+      match good with
+      | stF :: _ => ({ st := stF, round := none }, none)
+      | [] => ({ st := st, round := none }, some s!"no order of the {ops.length} concurrent requests explains their replies and the final contents: not linearizable")
+    | _, _ => ({ d with round := none }, some "bad sround-end line")
   | _ =>
-    let lhs := ws.takeWhile (· ≠ "=>")
-    let rhs := (ws.dropWhile (· ≠ "=>")).drop 1
+    let (lhs, rhs) := splitLine ws
     match parseOp lhs with
-    | none => (st, some "unparsable operation")
+    | none => (d, some "unparsable operation")
     | some op =>
+      match d.round with
+      | some ops => ({ d with round := some (ops ++ [(op, rhs)]) }, none)
+      | none =>
       let (st', r) := GoNfsd.Model.Simple.step st op
       let mt := replyToks r
-      (st', if mt = rhs then none else
+      ({ d with st := st' }, if mt = rhs then none else
         some s!"reply differs: model [{" ".intercalate (mt.map fun t => (t.take 60).toString)}] impl [{" ".intercalate (rhs.map fun t => (t.take 60).toString)}]")
 
-def main : IO UInt32 := runLines init step
+def main : IO UInt32 := runLines ({} : DSt) step
 
 end GoNfsd.Driver.Simple
